@@ -13,19 +13,19 @@ E2E_NOTE = ("Trusted base: the harness (vmon/e2e.py hooks, shadow cluster, gener
 
 # id -> (technique, level text, design_ref, level_note)
 CLAIMED = {
-    "C01": ("online invariant monitor: independent shadow occupancy model re-checked after every mutation of a live worker, during full simulations",
+    "C01": ("online invariant monitor: independent shadow occupancy model re-checked after every mutation of a live worker, during full simulations and during direct-drive runs under a hostile (chaos) policy that also answers with batches",
             "held on the K generated worlds run end to end with the shadow-cluster monitor attached; every live place/remove/load/evict and every utilization row was compared with an occupancy model that shares no code with the ledger",
             "DESIGN.md 4/C01", E2E_NOTE),
-    "C02": ("online per-task ordering automaton on Task.release/start/finish hooks during full simulations",
+    "C02": ("online per-task ordering automaton on Task.release/start/finish hooks during full simulations and direct-drive chaos-policy runs (multi-timestamp graphs, children with their own release times)",
             "held on the K generated worlds: every observed start was checked against the harness' own record of releases and parent completions (description graph)",
             "DESIGN.md 4/C02", E2E_NOTE),
-    "C03": ("online trace monitor: clock, event-queue order at every pop, completion-time automaton, first-placement-attempt oracle with the shadow fit test",
+    "C03": ("online trace monitor: clock, event-queue order at every pop, completion-time automaton against the decision recorded at the policy boundary (the Placements schedule() returned), first-placement-attempt oracle with the shadow fit test; full simulations and direct-drive chaos-policy runs",
             "held on the K generated worlds incl. same-microsecond event groups; completion = start + strategy runtime (variance window), monotone clock, queue pops minimal under the documented key, start at the chosen time when ready and fitting",
             "DESIGN.md 4/C03", E2E_NOTE),
     "C05": ("bounded-progress watchdog (logical, not wall-clock) + end-state checker over full simulations",
             "liveness restated as bounded progress: every generated run reached SIMULATOR_END by loop_timeout without exceeding the no-progress bounds; feasible work-conserving worlds finished all work",
             "DESIGN.md 4/C05", E2E_NOTE + " 'Eventually' is only observable as N steps without progress."),
-    "C06": ("online state-machine monitor on every Task mutator + state scan after every handled event + offline closure check of cancellations",
+    "C06": ("online state-machine monitor on every Task mutator (legal transitions, unschedule restores the pre-scheduling state) + state scan after every handled event + offline closure check of cancellations; full simulations and direct-drive runs under a chaos policy that re-plans, retracts and cancels",
             "held on the K generated worlds with cancellation (deadline enforcement, drop_skipped_tasks, conditionals)",
             "DESIGN.md 4/C06", E2E_NOTE),
     "C07": ("hook on TaskGraph.notify_task_completion (return value, probability snapshot) + offline branch census per conditional block",
@@ -40,7 +40,7 @@ CLAIMED = {
     "C16": ("differential monitor: EventTime operators vs integer microseconds; EventQueue histories vs a reference sorted list",
             "held on the sampled value triples over all 9 unit pairs (|us| < 2^53, edge values) and the queue histories incl. in-place retimes",
             "DESIGN.md 4/C16", "Trusted base: Python integers; the documented ordering key (time, type value, task unique name)."),
-    "C17": ("differential monitor: Graph/TaskGraph/JobGraph routines vs brute force on enumerated and random DAGs and cyclic graphs",
+    "C17": ("differential monitor: Graph/TaskGraph/JobGraph routines vs brute force on enumerated and random DAGs, cyclic graphs, and graphs grown through their public mutators with every routine queried between mutations",
             "complete for all DAGs on <=5 nodes (quick) / <=6 nodes (thorough) in several insertion orders, sampled beyond",
             "DESIGN.md 4/C17", "Trusted base: the brute-force reference in vmon/checks/c17_graphs.py."),
     "C09": ("differential trace monitor: two fresh `python main.py` processes per world with different PYTHONHASHSEED, CSVs compared row by row after masking wall-clock fields",
@@ -52,7 +52,7 @@ CLAIMED = {
     "C19": ("differential monitor: loader output vs the description kept by the generator (YAML and JSON, with and without absl flags); closed-loop in-flight census from observed events of full simulations",
             "held on the K generated descriptions over all five release policies, override flags and replication, and on the closed-loop runs",
             "DESIGN.md 4/C19", "Trusted base: the generator's description. Deadline base not judged when zero-weight jobs make the critical path's SLO sum ambiguous."),
-    "C10": ("wrapper monitor on every policy's schedule(): decision-shape checks, exact interval-packing feasibility against the shadow cluster, before/after digests of live cluster and tasks; live calls in full simulations plus shadow invocations of the other policies on the same states",
+    "C10": ("wrapper monitor on every policy's schedule(): decision-shape checks, exact interval-packing feasibility against the shadow cluster, before/after digests of live cluster and tasks; live calls in full simulations plus shadow invocations of the other policies on the same states, in full simulations and in direct-drive chaos-policy runs",
             "held on the K live and shadow schedule() calls of all eight policies on reachable states, apart from the listed known findings",
             "DESIGN.md 4/C10", E2E_NOTE + " Joint capacity is judged per resource name with the weakest reading of a running task's expected end."),
     "C18": ("online monitor on every frontier / completion-notification / releasable call in full simulations, probe calls on a grid of lookaheads, switches and branch policies at every scheduler start, and a direct random walker over task-graph states",
